@@ -159,7 +159,7 @@ func TestVerif_C37_BeaconConcurrentRace(t *testing.T) {
 	r := verifkit.Start(t, "C37", "beacon-concurrent-race")
 	defer r.Finish()
 	r.SetRule("the concurrent streams (1000 events each) under the Go race detector, results in per-goroutine slots, start barrier only. non-trivial = two deliveries of the seed overlapped according to the monotonic clock (evidence only)")
-	c37bConcurrent(r, false, r.N(3, 200), 1000)
+	c37bConcurrent(r, false, r.N(3, 100), 1000)
 }
 
 func TestVerif_C37_BeaconDistinct(t *testing.T) {
@@ -184,10 +184,10 @@ func TestVerif_C37_BeaconDistinct(t *testing.T) {
 			add(s)
 			if rng.Intn(2) == 0 {
 				// neighbours in key space
-				add(new(big.Int).Lsh(s, 4))                 // hex text with a trailing 0
+				add(new(big.Int).Lsh(s, 4)) // hex text with a trailing 0
 				add(new(big.Int).Add(new(big.Int).Lsh(s, 4), big.NewInt(1)))
-				add(new(big.Int).Xor(s, big.NewInt(1)))     // last digit differs
-				add(new(big.Int).Rsh(s, 4))                 // last digit dropped
+				add(new(big.Int).Xor(s, big.NewInt(1))) // last digit differs
+				add(new(big.Int).Rsh(s, 4))             // last digit dropped
 				near = true
 			}
 		}
